@@ -127,16 +127,21 @@ TypeOK == /\ now \in 0..MaxT
 TimeOrdered == \A i \in 1..(Len(hist) - 1) : hist[i][3] <= hist[i + 1][3]
 
 (* floor average: avg * cnt <= total < (avg + 1) * cnt *)
-AverageIsFloor == Count > 0 => /\ Average * Count <= TotalTime
-                               /\ TotalTime < (Average + 1) * Count
+AverageIsFloor == LET c == Count
+                      tt == TotalTime
+                      a == Average
+                  IN  c > 0 => (a * c <= tt /\ tt < (a + 1) * c)
 
 (* the union is never longer than the sum, never longer than the covered span,
    and equal to the sum when no two completed tasks share a cell *)
 Overlap(s, t) == Cells(s) \cap Cells(t) # {}
-BusyBounds == /\ BusyUnion <= TotalTime
-              /\ BusyUnion <= MaxT
-              /\ (\A s, t \in Completed : s # t => ~Overlap(s, t)) => BusyUnion = TotalTime
-              /\ \A t \in Completed : Duration(t) <= BusyUnion
+BusyBounds == LET bu == BusyUnion
+                  tt == TotalTime
+                  C == Completed
+              IN  /\ bu <= tt
+                  /\ bu <= MaxT
+                  /\ (\A s, t \in C : s # t => ~Overlap(s, t)) => bu = tt
+                  /\ \A t \in C : Duration(t) <= bu
 
 (* an independent second definition of the union: sweep over the instants *)
 CoveredAt(u) == \E t \in Completed : iv[t][1] <= u /\ u + 1 <= iv[t][2]
